@@ -143,10 +143,23 @@ def run(rep, tier):
                 t = re.sub(r"(?<![\w.>])%s(?=\.)" % re.escape(a_), full, t)
             return t
         takes = [(b, i, ev) for b, i, ev in fn.all_events() if ev.get("k") in ("call", "ctor") and re.search(r"callbacks_\[[^\]]*\]\.cb_", TX(ev)) and
-                 (callee_short(ev) == "enqueue" or TX(ev).startswith("invoke_impl{") or re.search(r"\.cb_\(", TX(ev)))]
+                 (re.search(r"(^|_)(enqueue|push|emplace)", callee_short(ev)) or TX(ev).startswith("invoke_impl{") or re.search(r"\.cb_\(", TX(ev)))]
         if not takes:
             raise AnalysisBroken("%s: no use of callbacks_[..].cb_ found" % fn.qname)
         for b, i, ev in takes:
+            # the continuation is moved out of callbacks_[..] into the argument: the receiving operation must not be able to refuse it.
+            # ConcurrentQueue::enqueue allocates when its blocks are used up; try_enqueue* / bounded pushes return false instead and the
+            # temporary that owns the continuation is destroyed - unless the result is tested the sender is never signalled
+            cs_ = callee_short(ev)
+            if ev.get("k") == "call" and re.search(r"(^|_)(enqueue|push|emplace)", cs_):
+                refusing = cs_.startswith("try_") or "bounded" in cs_
+                tested = any(blk_.cond is not None and (cs_ + "(") in T(blk_.cond) for blk_ in fn.blocks.values())
+                if refusing and not tested:
+                    rep.bad("C20.R3", fn, loc_of(ev), "handoff-may-drop:%s" % fn.qname.rsplit("::", 1)[-1], "the continuation moved out of callbacks_[..] is handed over with %s, which "
+                            "fails instead of allocating when the queue's blocks are used up, and the result is ignored: a burst of completions loses continuations - their "
+                            "senders are never signalled, the in-flight count never returns to zero" % cs_)
+                else:
+                    rep.ok("C20.R3", fn, "the continuation taken at %s is handed over with %s (%s)" % (loc_of(ev), cs_, "result tested" if refusing else "cannot be refused"))
             fb = ff.before.get((b, i)) or frozenset()
             # MPI_UNDEFINED is a macro: the test appears as '<constant> == rindex' (false on this edge)
             reported = any((not t) and re.search(r"(^|\W)rindex$|^rindex ==", a) and "==" in a for a, t in fb) or \
